@@ -94,7 +94,7 @@ func VerifC01Race() {
 	w := vNewWorldTSO(zzverif.Param("keys", 1), func(t tso.TSO) tso.TSO { return &vYieldTSO{t} })
 	w.history()
 	g0 := w.g.Clone()
-	w.s.Yield = func(string) { zzverif.Yield() }
+	w.s.Yield = zzverif.YieldAt
 	n := zzverif.Param("clients", 2)
 	reqs := make([]*vReq, n)
 	for i := range reqs {
